@@ -124,6 +124,7 @@ pub enum RealKind {
     Tag,
 }
 
+#[derive(Clone)]
 pub struct RealP {
     pub dim: usize,
     pub domain: Vec<Range<f64>>,
@@ -204,6 +205,7 @@ impl KnownOptimumProblem for RealP {
     }
 }
 
+#[derive(Clone)]
 pub struct BitsP {
     pub dim: usize,
     pub name: String,
@@ -245,6 +247,7 @@ impl KnownOptimumProblem for BitsP {
 }
 
 /// Permutation problem / TSP with an explicit symmetric distance matrix.
+#[derive(Clone)]
 pub struct TspP {
     pub n: usize,
     pub dist: Vec<f64>,
